@@ -388,6 +388,16 @@ def main():
             violations.append({'obligation': '%s::census::%s' % (c['unit'], c['label']), 'backend': 'extractor',
                                'kind': 'census', 'message': 'call-site census changed: `%s` occurs %d times in %s, contract assumes %d'
                                % (c['pattern'], c['found'], c['file'], c['expected']), 'clause': c['pattern'], 'function': c['label']})
+    # ---- a harness that ended without a verdict because CBMC itself died (memory pressure from other jobs on the machine)
+    # is run once more, alone
+    if not a.no_kani:
+        again = [h for h in harnesses if (kani_res.get(h) or {}).get('status') not in ('ok', 'fail')
+                 and 'without failed checks' in str((kani_res.get(h) or {}).get('reason', '')) + str((kani_res.get(h) or {}).get('detail', ''))]
+        for h in again[:3]:
+            r2 = safe(kanirun.run_cached, a.repo, [h], pid + '-retry', cfg.get('kani_timeout', 1500) * 3, 1)
+            if not isinstance(r2, Exception) and h in r2:
+                kani_res[h] = r2[h]
+                notes.append('kani harness %s re-run alone after a CBMC failure without verdict: %s' % (h, r2[h].get('status')))
     # ---- fallback: a function the deductive verifier could not follow in this tree (isolated above) is handed to the bounded
     # Kani harnesses that exercise it on the real code, even in the quick tier (cfg 'fallback_kani': selector -> harnesses)
     if not a.no_kani:
